@@ -245,15 +245,21 @@ def div_by_zero_somewhere(a: Any, vals: list[Any]) -> bool:
 # ------------------------------------------------------------------ building the real engines
 
 
-def build_api(a: Any, engines: list[Any], nest: bool = False, depth: int = 0, counter: list[int] | None = None) -> Any:
+def build_api(a: Any, engines: list[Any], nest: bool = False, depth: int = 0, counter: list[int] | None = None,
+              reuse: int = 0) -> Any:
     """With `nest`, sub-expressions at odd depths are built into engines of their own (`.build(name)` with default
-    arguments) before they are used as operands of the enclosing expression."""
+    arguments) before they are used as operands of the enclosing expression. With `reuse`, every intermediate builder
+    object is also used as the operand of another, discarded expression (bit 1: before, bit 2: after its real use), the
+    way a program does that keeps a sub-expression in a variable and builds two formulas from it."""
     from frequenz.quantities import Quantity
 
     counter = counter if counter is not None else [0]
 
+    def is_builder(r: Any) -> bool:
+        return hasattr(r, "build") and not hasattr(r, "new_receiver") and not isinstance(r, list)
+
     def sub(x: Any) -> Any:
-        r = build_api(x, engines, nest, depth + 1, counter)
+        r = build_api(x, engines, nest, depth + 1, counter, reuse)
         if nest and (depth + 1) % 2 == 1 and x[0] in ("bin", "un") and hasattr(r, "build") and not hasattr(r, "new_receiver"):
             counter[0] += 1
             return r.build(f"sub{counter[0]}")
@@ -271,15 +277,23 @@ def build_api(a: Any, engines: list[Any], nest: bool = False, depth: int = 0, co
     right = sub(a[3])
     if isinstance(right, list):
         right = Quantity(right[1]) if op in ("+", "-", "min", "max") else right[1]
+    if reuse & 1 and is_builder(left):
+        _ = left - engines[0]  # another expression over the same sub-expression object
     if op == "+":
-        return left + right
-    if op == "-":
-        return left - right
-    if op == "*":
-        return left * right
-    if op == "/":
-        return left / right
-    return getattr(left, op)(right)
+        res = left + right
+    elif op == "-":
+        res = left - right
+    elif op == "*":
+        res = left * right
+    elif op == "/":
+        res = left / right
+    else:
+        res = getattr(left, op)(right)
+    if reuse & 2 and is_builder(left):
+        _ = left * 3.0
+    if reuse & 2 and is_builder(right):
+        _ = right + engines[0]
+    return res
 
 
 def push_ast(fb: Any, a: Any, mk_rx: Any, leaf_naz: list[bool], parent: str | None = None, right: bool = False) -> None:
@@ -435,7 +449,7 @@ async def run_program(prog: dict[str, Any], out: dict[str, Any], pace_timeout: f
             names = prog.get("leaf_names") or [f"e{i}" for i in range(n)]
             engines = [FormulaEngine.from_receiver(names[i], chans[i].new_receiver(limit=200), Quantity,
                                                    nones_are_zeros=leaf_naz[i]) for i in range(n)]
-            top = build_api(prog["ast"], engines, nest=bool(prog.get("nest")))
+            top = build_api(prog["ast"], engines, nest=bool(prog.get("nest")), reuse=int(prog.get("reuse") or 0))
             # (the default of `nones_are_zeros` is exercised as well: it must mean False)
             eng = top.build("f") if (prog.get("nest") and not naz) else top.build("f", nones_are_zeros=naz)
     out["formula_str"] = str(eng)
